@@ -32,7 +32,7 @@ async def split_state(st, idx, sd, acc):
     rng = random.Random(sd * 1000003 + idx)
     toks = list(st["consumed"])
     for variant in range(2):
-        s, info = AS.render(toks, rng, plain=(variant == 0), kinds=("key", "key", "pkg", "time"))
+        s, info = AS.render(toks, rng, plain=(variant == 0), kinds=("key", "key", "pkg", "rep", "time"))
         acc.c("parses")
         case = {"kind": "split", "string": s, "tokens": toks, "expected": st["obs"]["parts"]}
         try:
